@@ -12,7 +12,12 @@ Catalogue ==
     hex     |-> [G |-> <<<<2, -1, 0>>, <<-1, 2, 0>>, <<0, 0, 3>>>>, gs |-> 2, A |-> <<>>],
     hex60   |-> [G |-> <<<<2, 1, 0>>, <<1, 2, 0>>, <<0, 0, 5>>>>, gs |-> 2, A |-> <<>>],
     mono    |-> [G |-> <<<<4, 0, 2>>, <<0, 9, 0>>, <<2, 0, 5>>>>, gs |-> 1, A |-> <<<<2, 0, 0>>, <<0, 3, 0>>, <<1, 0, 2>>>>],
-    tri     |-> [G |-> <<<<4, 2, 2>>, <<2, 5, 3>>, <<2, 3, 11>>>>, gs |-> 1, A |-> <<<<2, 0, 0>>, <<1, 2, 0>>, <<1, 1, 3>>>>] ]
+    tri     |-> [G |-> <<<<4, 2, 2>>, <<2, 5, 3>>, <<2, 3, 11>>>>, gs |-> 1, A |-> <<<<2, 0, 0>>, <<1, 2, 0>>, <<1, 1, 3>>>>],
+    (* two lattices on which the shell procedure (mesh <<1,1,1>>) ends with a NEGATIVE shell weight (used by C31):
+       triN: weights -1/6, 1/6, 1/2 on 8 vectors;  orthoN (3:4:5, the shell of length 5 holds (0,0,+-1) and (+-1,+-1,0)):
+       weights -7/800, 7/450, 1/50 on 10 vectors *)
+    triN    |-> [G |-> <<<<9, 0, -6>>, <<0, 5, 8>>, <<-6, 8, 17>>>>, gs |-> 1, A |-> <<<<3, 0, 0>>, <<0, 2, 1>>, <<-2, 3, 2>>>>],
+    orthoN  |-> [G |-> <<<<9, 0, 0>>, <<0, 16, 0>>, <<0, 0, 25>>>>, gs |-> 1, A |-> <<<<3, 0, 0>>, <<0, 4, 0>>, <<0, 0, 5>>>>] ]
 ASSUME \A n \in DOMAIN Catalogue : IsGram(Catalogue[n].G)
 ASSUME \A n \in DOMAIN Catalogue : Catalogue[n].A # <<>> =>
           \A i, j \in I3 : Dot(Catalogue[n].A[i], Catalogue[n].A[j]) = Catalogue[n].G[i][j]
